@@ -152,6 +152,12 @@ later than the last segment's availability at 10.0 s — the case in which the p
 example : publishMS 0 0 5000 11300 90000 2 ⟨720000, 180000, 4⟩ [(360000, 180000), (540000, 180000), (720000, 180000)] = 11000 ∧
     lastSegAvailMS 0 0 90000 ⟨720000, 180000, 4⟩ = 10000 := by decide
 
+/-- the first segment of the stream never replaced another entry (`fix:` commit 13d0447): while it is the first entry
+(`startNr = 0`) only the last segment's availability counts — 2.002 s segments at 30 kHz, start 61 s, tsbd 10 s: at
+73.002 s the window start reaches the end of segment 0, the list does not change and neither does publishTime -/
+example : publishMS 61 0 10000 73002 30000 0 ⟨300300, 60060, 5⟩ [(0, 60060), (60060, 60060)] =
+    lastSegAvailMS 61 0 30000 ⟨300300, 60060, 5⟩ := by decide
+
 /-- After the configured stop time the MPD is static with the duration stop − start. -/
 theorem c05_static_after_stop (a : Asset) (sets : List ASDef) (cfg : MpdCfg) (nowMS stop : Nat) (m : MpdOut)
     (hs : cfg.stopS = some stop) (hafter : stop * 1000 < nowMS) (h : liveMpd a sets cfg nowMS = .ok m) :
